@@ -172,6 +172,10 @@ func worker(prop string, seed uint64, tier string, from, stride, maxRuns int, de
 		plan := pr.Gen(seed, run, tier)
 		dir := props.RunDir(base, run)
 		res := props.SafeExec(pr, plan, dir)
+		if os.Getenv("VERIF_DEBUG_FD") != "" {
+			fds, _ := os.ReadDir("/proc/self/fd")
+			fmt.Fprintf(os.Stderr, "run %d: %d fds open, probes %v\n", run, len(fds), res.Probes)
+		}
 		os.RemoveAll(dir)
 		os.RemoveAll(dir + ".crash")
 		line := runLine{Run: run, Res: res}
